@@ -25,6 +25,8 @@ pub mod trace;
 pub mod transform;
 pub mod vcell;
 pub mod vector;
+#[cfg(feature = "verif")]
+pub mod verif;
 
 const HEAP_CHUNK_SIZE: usize = 8192;
 
